@@ -31,7 +31,7 @@ var pkgPool = []string{
 	"github.com/foo/bar", "github.com/maruel/panicparse/v2/stack", "gopkg.in/yaml.v2", "example.com",
 	"example.com/a.b/c.d", "golang.org/x/sys/unix", "héllo/wörld", "k8s.io/client-go/tools/cache",
 	"a b/c d", "weird/pct%41", `q"uote/p`, "dash-ed/under_score", "github.com/x/c++lib", "v.io/x/ref.v1",
-	"gopkg.in/a.v1/b.v2", "x/~tilde", "vendor/golang.org/x/net/http2", "github.com/foo/bar/vendor/golang.org/x/net/http2", "a/vendor/b/c",
+	"gopkg.in/a.v1/b.v2", "x/~tilde", "example.com/app/internal/main", "x/main", "main/sub", "maintenance", "vendor/golang.org/x/net/http2", "github.com/foo/bar/vendor/golang.org/x/net/http2", "a/vendor/b/c",
 }
 
 var namePool = []string{
